@@ -12,6 +12,7 @@ CHECKS = {
  "C13": ("model_checking", "The reference telnet decoder (TelnetRef) is a fold over the byte stream; TLC checks exhaustively (all token streams up to 4 tokens x all cut positions) that feeding pieces equals feeding the whole and that no negotiation byte reaches a line. TLC-enumerated token streams x segmentations (strict class), malformed/oversized/8-bit robust-class streams, ASCII-port streams and bursts are delivered through a scripted recv() to the real get_user_data()/copy_chars()/get_user_command(); every trace is validated against the abstract specification Telnet: strict class - delivered commands equal the reference lines in order and nothing is lost; robust class - only bytes the reference met as data may appear, buffer indices stay inside the 2 KiB buffer; ASan/UBSan monitor every execution.", NOTE, TECH + "; sanitizer monitoring for the memory-safety clause", "DESIGN.md §7 C13"),
  "C09": ("model_checking", "TLC enumerates (BackendGen) short histories of external events - tick before any connection, connect, partial input, EOF / hang-up / reset, reconnect, console lines - with an uncaught error injected into each kind of task (command, process_input, input_to, heart_beat, call_out, reset, clean_up, connect, logon, net_dead, telnet callback) in network and console mode with a working, failing or silent master error_handler; every history runs through the real backend() under ASan/UBSan and every trace is validated by TLC against Backend (process alive at the end, every error reported before the next poll, only the failing object's heart beat switched off) and against CmdTurn (the other users keep being served).", NOTE, TECH + " with enumerated fault sequences; sanitizer monitoring", "DESIGN.md §7 C09"),
  "C20": ("model_checking", "TLC runs the abstract specification Uids over a small universe (UidsGen) and checks that uids are never 0 and change only by creation or export_uid from a non-zero euid onto an euid-0 object, and that euids change only by an approved seteuid (or to 0); the same runs print load/clone/seteuid/export_uid histories under three master policies (approve all, refuse all, approve own uid; creators incl. the backbone). Every history is executed by scenario objects with different creators in the real driver and getuid()/geteuid() of every object after every step are validated by TLC against Uids.", NOTE, TECH, "DESIGN.md §7 C20"),
+ "C08": ("model_checking", "TLC enumerates (ObjWorldGen) hook scripts for create / init / move_or_destruct (move, destruct self or others, clone, raise an error) x top-level clone / move / destruct steps; every history runs in the real driver with operations issued re-entrantly from the hooks, and TLC validates every trace against the abstract specification ObjWorld (moves take effect at once and are refused when they would create a cycle, destruct is a cascade, the innermost move_or_destruct hook restricts destruct, errors land in the catch of an operation in progress). After every command the specification state is compared with the driver's structures (super / contains lists, name table, destruct list) and with what LPC sees (environment, all_inventory, find_object, stale references reading 0); the specification's own invariants Forest and DeadClean are checked on every state.", NOTE, TECH, "DESIGN.md §7 C08"),
 }
 NA = {}
 
